@@ -225,6 +225,22 @@ Proof.
     apply framed_bind; [|intros; apply framed_ret].
     destruct Y; try apply framed_fail. apply framed_ali_set.
 Qed.
+(* ---- copy(new_residues) / deep_copy(new_residues): allocation only *)
+Lemma framed_graft_residues src mode i : framed G Tp Mt (graft_residues src mode i).
+Proof.
+  unfold graft_residues. destruct src; try apply framed_fail.
+  - destruct mode; [apply framed_ret | apply framed_mapMM; intros; apply framed_residue_copy].
+  - destruct mode; [apply framed_ret | apply framed_mapMM; intros; apply framed_residue_copy].
+  - apply framed_bind; [apply framed_lift|]; intros inst. apply framed_mapMM; intros cs _.
+    apply framed_bind; [apply framed_gro_alloc_list|]; intros.
+    apply framed_bind; [apply framed_residname_check | intros; apply framed_ret].
+Qed.
+Lemma framed_graft deep mt ts src mode i : framed G Tp Mt (graft deep mt ts src mode i).
+Proof.
+  unfold graft. apply framed_bind; [apply framed_graft_residues|]; intros rs.
+  destruct deep; [|apply framed_mol_init].
+  apply framed_bind; [apply framed_mtop_copy | intros; apply framed_mol_init].
+Qed.
 End Rules.
 
 (* ------------------------------------------------------------------ footprints *)
